@@ -99,7 +99,7 @@ fn sig_of(a: &A, i: usize) -> Signature {
 fn vk_of(a: &A, i: usize) -> Option<VerifyingKey> {
     let t = a.tok(i);
     let (how, h) = match t.as_bytes().first() {
-        Some(b't') | Some(b'n') | Some(b'j') => (t.as_bytes()[0], &t[1..]),
+        Some(b't') | Some(b'n') | Some(b'j') | Some(b'p') | Some(b'q') => (t.as_bytes()[0], &t[1..]),
         _ => (b'f', t),
     };
     let b: [u8; 32] = unhex(h).as_slice().try_into().unwrap_or_else(|_| panic!("ARG: need 32 bytes"));
@@ -114,6 +114,10 @@ fn vk_of(a: &A, i: usize) -> Option<VerifyingKey> {
             let js = format!("[{}]", b.iter().map(|x| x.to_string()).collect::<Vec<_>>().join(","));
             serde_json::from_str::<VerifyingKey>(&js).ok()
         }
+        // from an already decoded point (the key bytes are then the canonical encoding of that point)
+        b'p' => curve25519_dalek::edwards::CompressedEdwardsY(b).decompress().map(VerifyingKey::from),
+        // Default::default(): the identity key; the hex part is ignored except that it must be the identity encoding
+        b'q' => Some(VerifyingKey::default()),
         _ => VerifyingKey::from_bytes(&b).ok(),
     }
 }
@@ -467,5 +471,37 @@ pub fn register(m: &mut HashMap<&'static str, OpFn>) {
             hex(k1.verifying_key().as_bytes()),
             hex(k2.verifying_key().as_bytes()),
         ]
+    });
+    // key object built by any constructor (see vk_of): -> ok, stored bytes, is_weak, to_montgomery, Debug-independent equality with from_bytes(stored bytes)
+    m.insert("sig.vk_ctor", |a| match vk_of(a, 0) {
+        Some(k) => {
+            let again = VerifyingKey::from_bytes(k.as_bytes());
+            vec![
+                "ok".into(),
+                hex(k.as_bytes()),
+                tb(k.is_weak()),
+                hex(k.to_montgomery().as_bytes()),
+                tb(again.map(|g| g == k).unwrap_or(false)),
+                hex(&k.to_bytes()),
+                hex(k.as_ref()),
+            ]
+        }
+        None => vec!["err".into()],
+    });
+    // ExpandedSecretKey (64 bytes: scalar bytes || prefix) -> its verifying key: bytes, is_weak, and verify / verify_strict of a
+    // signature made with it over msg
+    m.insert("sig.esk_key", |a| {
+        // the fields are public: the scalar is taken as given (canonical bytes), not clamped
+        let b = a.b64(0);
+        let sc: [u8; 32] = b[..32].try_into().unwrap();
+        let esk = ExpandedSecretKey {
+            scalar: Option::<curve25519_dalek::Scalar>::from(curve25519_dalek::Scalar::from_canonical_bytes(sc))
+                .unwrap_or_else(|| panic!("ARG: scalar not canonical")),
+            hash_prefix: b[32..].try_into().unwrap(),
+        };
+        let vk = VerifyingKey::from(&esk);
+        let msg = a.bytes(1);
+        let s = hazmat::raw_sign::<Sha512>(&esk, &msg, &vk);
+        vec![hex(vk.as_bytes()), tb(vk.is_weak()), hex(&s.to_bytes()), res(vk.verify(&msg, &s)), res(vk.verify_strict(&msg, &s))]
     });
 }
